@@ -353,6 +353,7 @@ def sched_oracle(op, out):
 
     toks = [x.split(":") for x in out.split()]
     con_since, sent_at = {}, {}
+    woken = {}      # sender -> time of the first confirmation that arrived while it was already waiting (hand-over finished)
     i = 0
     while i < len(toks):
         p = toks[i]
@@ -370,6 +371,8 @@ def sched_oracle(op, out):
             if code == 0x2E:
                 for k in con_since:
                     con_since[k] = True
+                for k in sent_at:
+                    woken.setdefault(k, int(p[5]))
             msg = route_oracle(f"c14 route {code} {dst} {tp0} {pay}",
                                f"q{outs.count('q')} m{outs.count('m')} k{outs.count('k')} e0 i0 x0 u0")
             if msg:
@@ -384,6 +387,11 @@ def sched_oracle(op, out):
             elif r == "conf":
                 if n not in sent_at or at != sent_at[n] + T * 1_000_000:
                     return f"send {n}: ConfirmationError at {at}, hand-over finished at {sent_at.get(n)}, timeout {T}s"
+                if n in woken and woken[n] < at:
+                    # "... and OTHERWISE fails": a waiting send that was given its confirmation must not fail (a confirmation in the
+                    # very instant of the timeout may lose against the timer)
+                    return (f"send {n} failed with a confirmation error at {at} although a confirmation frame arrived at {woken[n]}, "
+                            f"while it was waiting (hand-over finished at {sent_at[n]})")
         elif p[0] == "end" and p[1] != "0":
             return f"{p[1]} task(s) still pending at the end"
         i += 1
